@@ -56,6 +56,11 @@ type scen struct {
 }
 
 func (e *env) open(name string, reqTimeout time.Duration) *scen {
+	return e.openR(name, reqTimeout, true)
+}
+
+// openR: with read=false the peer never reads from the connection (a stalled peer).
+func (e *env) openR(name string, reqTimeout time.Duration, read bool) *scen {
 	cli, srv, cleanup, err := h.SendLoopback()
 	if err != nil {
 		e.r.InfraError = "loopback: " + err.Error()
@@ -72,6 +77,10 @@ func (e *env) open(name string, reqTimeout time.Duration) *scen {
 	s := &scen{name: name, sc: sc, ctl: h.NewSendCtl(), srv: srv, reqs: make(chan peerReq, 256), seq: 3000, tok: initTok, cleanup: cleanup, done: make(chan struct{})}
 	uasc.VerifSetHook(s.ctl.Hook)
 	sc.VerifStartDispatcher()
+	if !read {
+		close(s.done)
+		return s
+	}
 	go func() {
 		defer close(s.done)
 		for {
@@ -632,6 +641,131 @@ func (e *env) forcedLeak() {
 	}
 }
 
+// renewAfterFailed: a renewal that timed out must not prevent the next one.
+func (e *env) renewAfterFailed() {
+	s := e.open("renewal-after-failed-renewal", 100*time.Millisecond)
+	if s == nil {
+		return
+	}
+	defer s.stop()
+	first := &call{k: 0, opn: true, timeout: 100 * time.Millisecond}
+	first.ctx, first.cancel = context.WithCancel(context.Background())
+	e.runCall(s, first)
+	select {
+	case <-s.reqs: // not answered
+	case <-time.After(20 * time.Second):
+		e.r.InfraError = s.name + ": peer did not receive the first OPN request"
+		return
+	}
+	select {
+	case <-first.done:
+	case <-time.After(hang):
+		e.r.Fail(s.name, "", "an unanswered renewal with a request timeout of 100 ms did not return")
+		return
+	}
+	second := &call{k: 1, opn: true, timeout: 100 * time.Millisecond}
+	second.ctx, second.cancel = context.WithCancel(context.Background())
+	e.runCall(s, second)
+	select {
+	case q := <-s.reqs:
+		s.answer(q)
+	case <-second.done:
+	case <-time.After(20 * time.Second):
+		e.r.InfraError = s.name + ": peer did not receive the second OPN request"
+		return
+	}
+	<-second.done
+	probe := &call{k: 2, timeout: 10 * time.Second}
+	probe.ctx, probe.cancel = context.WithCancel(context.Background())
+	e.runCall(s, probe)
+	select {
+	case q := <-s.reqs:
+		s.answer(q)
+	case <-probe.done:
+	case <-time.After(20 * time.Second):
+	}
+	<-probe.done
+	evs := s.ctl.Events()
+	uasc.VerifSetHook(nil)
+	e.r.Hit("scenario:renewal-after-failed-renewal")
+	if first.err == nil {
+		e.r.Notes = append(e.r.Notes, s.name+": the unanswered renewal did not fail")
+	}
+	// oracle: the channel stays usable after a request (here: a renewal) timed out
+	if second.err != nil {
+		e.r.Fail(s.name, "", fmt.Sprintf("after a renewal that timed out (%v) the next renewal, answered at once, failed: %v", first.err, second.err))
+	} else if probe.err != nil {
+		e.r.Fail(s.name, "", fmt.Sprintf("after a failed and a successful renewal an answered request failed: %v", probe.err))
+	} else {
+		e.r.Hit("renewal-after-failure:ok")
+	}
+	calls := []*call{first, second, probe}
+	labels := labelsOf(evs, calls, s.sc.VerifRcvLocker())
+	e.r.Count(s.name+" "+strings.Join(labels, ";"), true)
+	e.r.Sample(s.name + ": " + strings.Join(labels, "; "))
+	for _, l := range labels {
+		e.r.Hit("label:" + strings.Fields(l)[0])
+	}
+	if e.d != nil {
+		e.replay(s.name, 3, labels)
+	}
+}
+
+// stalledPeer: the peer stops reading; a request far larger than the socket buffers must give up
+// within its timeout per chunk, not hang.
+func (e *env) stalledPeer() {
+	s := e.openR("stalled-peer", time.Second, false)
+	if s == nil {
+		return
+	}
+	defer s.stop()
+	big := make([]byte, 24<<20)
+	c := &call{k: 0, timeout: 300 * time.Millisecond, done: make(chan struct{})}
+	c.ctx, c.cancel = context.WithCancel(context.Background())
+	ready := make(chan struct{})
+	go func() {
+		c.goid = h.GoID()
+		close(ready)
+		defer close(c.done)
+		c.start = time.Now()
+		c.err = s.sc.SendRequestWithTimeout(c.ctx, &ua.WriteRequest{NodesToWrite: []*ua.WriteValue{{NodeID: ua.NewNumericNodeID(0, 1), AttributeID: ua.AttributeIDValue,
+			Value: &ua.DataValue{EncodingMask: ua.DataValueValue, Value: ua.MustVariant(big)}}}}, nil, c.timeout, func(ua.Response) error { return nil })
+		c.end = time.Now()
+		s.ctl.Hook("harness.return", c.k)
+	}()
+	<-ready
+	select {
+	case <-c.done:
+	case <-time.After(hang + 10*time.Second):
+		e.r.Fail(s.name, "", "a 24 MB request (timeout 300 ms) to a peer that does not read never returned: a chunk is written without a deadline")
+		c.cancel()
+		return
+	}
+	ids := s.sc.VerifHandlerIDs()
+	evs := s.ctl.Events()
+	uasc.VerifSetHook(nil)
+	e.r.Hit("scenario:stalled-peer")
+	nch := 0
+	for _, ev := range evs {
+		if ev.Name == "send.chunk" {
+			nch++
+		}
+	}
+	e.r.Sample(fmt.Sprintf("%s: returned %v after %v and %d chunks", s.name, c.err, c.end.Sub(c.start).Round(time.Millisecond), nch))
+	if c.err == nil {
+		e.r.Notes = append(e.r.Notes, s.name+": the whole request fitted into the socket buffers")
+	} else if len(ids) != 0 {
+		e.r.Fail(s.name, "", fmt.Sprintf("the request failed (%v) but its handler is still registered", c.err))
+	} else {
+		e.r.Hit("stalled-peer:gave-up")
+	}
+	labels := labelsOf(evs, []*call{c}, s.sc.VerifRcvLocker())
+	e.r.Count(s.name+" "+strings.Join(labels, ";"), true)
+	if e.d != nil {
+		e.replay(s.name, 1, labels)
+	}
+}
+
 func (e *env) corpus() {
 	// `trace <n> <slack>;label;…;?query|expected`
 	for _, line := range e.o.CorpusLines() {
@@ -685,6 +819,10 @@ func main() {
 			e.forcedWedge()
 		case strings.HasPrefix(o.Replay, "forced-failed-send"):
 			e.forcedLeak()
+		case strings.HasPrefix(o.Replay, "renewal-after"):
+			e.renewAfterFailed()
+		case strings.HasPrefix(o.Replay, "stalled-peer"):
+			e.stalledPeer()
 		default:
 			if _, err := fmt.Sscanf(o.Replay, "random %d %d", &seed, &idx); err == nil {
 				e.random(seed, idx)
@@ -697,6 +835,12 @@ func main() {
 	if r.InfraError == "" {
 		e.forcedLeak()
 	}
+	if r.InfraError == "" {
+		e.renewAfterFailed()
+	}
+	if r.InfraError == "" {
+		e.stalledPeer()
+	}
 	t0 := time.Now()
 	n := o.N(40, 1200)
 	for i := 0; i < n && r.InfraError == ""; i++ {
@@ -707,7 +851,7 @@ func main() {
 		}
 	}
 	for _, b := range []string{"label:cSend", "label:cSendFail", "label:cRecv", "label:cTimeout", "label:cCancel", "label:cUnlock", "label:dRecv", "label:dRcvLock", "label:dSend", "label:dWait",
-		"plan:edge", "plan:late", "plan:drop", "plan:cancel", "plan:precancel", "probe:delivered", "outcome:timeout", "outcome:ok", "scenario:forced-wedge", "scenario:forced-failed-send", "failed-send:slot-released"} {
+		"plan:edge", "plan:late", "plan:drop", "plan:cancel", "plan:precancel", "probe:delivered", "outcome:timeout", "outcome:ok", "scenario:forced-wedge", "scenario:forced-failed-send", "failed-send:slot-released", "renewal-after-failure:ok", "stalled-peer:gave-up"} {
 		if r.Distribution[b] == 0 {
 			r.Unreached = append(r.Unreached, b)
 		}
